@@ -205,3 +205,58 @@ func VerifC16_RenderQuotesLine() {
 	zzverif.Assert(contains(s, "in line "+string(rune('0'+e.Line()))+" on file file.jst"), "the rendering names the line and the file")
 	zzverif.Assert(contains(s, "> "+src+"\n"), "the rendering quotes the offending line")
 }
+
+// VerifC16_ConvertError: ConvertError (what JSight API Core shows to users)
+// keeps the numeric code and the message of every diagnostic it is given - a
+// positioned JSchemaError, a bare code, a *errs.Err - and wraps anything else
+// into the generic diagnostic; the result always renders.
+func VerifC16_ConvertError() {
+	zzverif.Expect("converted")
+	f := fs.NewFile("api.jst", "GET /cats\n  200 @cat\n")
+	codes := []errs.Code{errs.ErrEmptySchema, errs.ErrUserTypeNotFound, errs.ErrEmptyJson, errs.ErrInvalidSchemaName, errs.ErrDuplicationOfNameOfTypes, errs.ErrLoadError}
+	c := codes[zzverif.IntRange("code", 0, len(codes)-1)]
+	mkErr := func() *errs.Err {
+		switch c {
+		case errs.ErrEmptySchema, errs.ErrEmptyJson:
+			return c.F()
+		default:
+			return c.F("@cat")
+		}
+	}
+	var in interface{}
+	var wantCode int
+	var wantMsg string
+	switch zzverif.IntRange("kind", 0, 4) {
+	case 0:
+		e := mkErr()
+		in, wantCode, wantMsg = e, int(e.Code()), e.Error()
+	case 1:
+		je := NewJSchemaError(f, mkErr())
+		je.SetIndex(bytes.Index(zzverif.IntRange("index", 0, 12)))
+		in, wantCode, wantMsg = je, je.ErrCode(), je.Message()
+	case 2:
+		if c != errs.ErrEmptySchema && c != errs.ErrEmptyJson {
+			c = errs.ErrEmptySchema // a bare code is formatted without arguments
+		}
+		in, wantCode, wantMsg = c, int(c), c.F().Error()
+	case 3:
+		in, wantCode, wantMsg = vPlainError("boom"), int(errs.ErrGeneric), "boom"
+	default:
+		in, wantCode, wantMsg = "a string", int(errs.ErrGeneric), "a string"
+	}
+	out := ConvertError(f, in)
+	zzverif.Reach("converted")
+	zzverif.Assert(out.ErrCode() == wantCode, "ConvertError keeps the numeric code of a diagnostic")
+	zzverif.Assert(out.Message() == wantMsg, "ConvertError keeps the message")
+	zzverif.Assert(out.Filename() == "api.jst", "the converted diagnostic names the file")
+	if je, ok := out.(JSchemaError); ok {
+		s := je.Error()
+		zzverif.Assert(zzverif.Opaque(s) || len(s) > 0, "the converted diagnostic renders")
+	} else {
+		zzverif.Assert(false, "the converted diagnostic is a JSchemaError")
+	}
+}
+
+type vPlainError string
+
+func (e vPlainError) Error() string { return string(e) }
